@@ -1,5 +1,6 @@
 import Proofs.C13
 import Proofs.HyphenLemmas2
+import Proofs.HyphenFace
 /-!
 # C13 at template level — hyphens of a rendered template
 
@@ -21,8 +22,13 @@ every tree and every variable map.
 * `hyphen_free_identity`: a template without hyphens loses nothing.
 * the side condition `capTrimFree` (no hyphen inside a `capture` body) and why it is needed:
   `hyphen_in_capture_changes_control_flow`.
+* `hyphen_faces_text_right`, `hyphen_faces_text_left(_block)`, `hyphen_faces_text`: a hyphen that
+  faces a literal text at the same level acts as the deletion of that text's adjacent whitespace,
+  at every position and depth; what happens where a hyphen does NOT face text (block ends, loop
+  iterations, tags that write nothing): `hyphen_*` examples at the end.
 
-Helper lemmas: `Proofs/HyphenTrace.lean`, `Proofs/HyphenLemmas.lean`, `Proofs/HyphenLemmas2.lean`.
+Helper lemmas: `Proofs/HyphenTrace.lean`, `Proofs/HyphenLemmas.lean`, `Proofs/HyphenLemmas2.lean`,
+`Proofs/HyphenFace.lean`.
 -/
 
 open Gen
@@ -187,10 +193,9 @@ def hyCaptureTpl : List Node :=
 /-- **Why `capTrimFree` is needed.** The text a `capture` block renders becomes a VALUE, which the
     template can compare; a hyphen inside the body changes that value, so it can change which
     branch runs — and then far more than whitespace. Here the hyphen-free template captures `"␠"`
-    and prints `yes`; with the hyphen the captured text is empty and nothing is printed. Deleting
-    whitespace from the two outputs does not make them equal, and the output with the hyphen is
-    not obtained from the other one by deleting whitespace only... it is, vacuously, a
-    subsequence; the erasure law fails. All calls are valid UTF-8 and both renders end normally. -/
+    and prints `yes`; with the hyphen the captured text is empty and nothing is printed: the two
+    outputs differ by more than whitespace, the erasure law fails. (All calls are valid UTF-8 and
+    both renders end normally; the only hypothesis of `hyphen_erasure` that fails is `capTrimFree`.) -/
 theorem hyphen_in_capture_changes_control_flow :
     capTrimFree hyCaptureTpl = false ∧
     (renderRoot hyCtx hyCaptureTpl []).runPure = ([], .ok .done) ∧
@@ -240,3 +245,202 @@ example : capTrimFree hyDemoTpl = true ∧ hasTrim hyDemoTpl = true := ⟨rfl, r
 example : hasTrim (stripTrims hyDemoTpl) = false ∧
     (renderRoot hyCtx (stripTrims hyDemoTpl) hyDemoEnv).runPure = ([97, 32] ++ [120] ++ [32, 98] ++ [32, 99, 32], .ok .done) :=
   ⟨rfl, hyDemo_out0⟩
+
+/-! ## (4) a hyphen that faces literal text -/
+
+/-- **hyphen_faces_text_right.** `-}}`/`-%}` directly followed, at the same level, by a literal
+    text: the render IS the render of the sequence with the hyphen dropped and the text
+    left-stripped (`bytes.TrimLeftFunc(text, unicode.IsSpace)`) — the same interaction tree, hence
+    the same calls, output, errors and behaviour on a failing writer. No side condition: every
+    context, every text (blank, empty, invalid UTF-8), every position (`pre`, `post` arbitrary: the
+    sequence may be a root, a block body, a branch, a loop body, a capture body), every state. -/
+theorem hyphen_faces_text_right (c : RCtx) (pre post : List Node) (l : Nat) (u : Bytes) :
+    renderList c (pre ++ .trim false :: .text l u :: post) = renderList c (pre ++ .text l (trimLeftSpace u) :: post) :=
+  renderList_append_congr c pre (renderList_trimRight_text c l u post)
+
+/-- the same for all such hyphens of a tree at once, at every depth (`faceR`) -/
+theorem hyphen_faces_text_right_everywhere (c : RCtx) (nodes : List Node) :
+    renderList c (faceR nodes) = renderList c nodes ∧ ∀ env, renderRoot c (faceR nodes) env = renderRoot c nodes env :=
+  ⟨(render_faceR c nodes).1, fun env => renderRoot_congr c (render_faceR c nodes).1 env⟩
+
+/-- **hyphen_faces_text_left, in a block body.** A literal text directly followed, at the same
+    level, by `{{-`/`{%-`, in a block body (or root sequence) `pre ++ text :: hyphen :: post`: from
+    ANY state (whatever is pending in the trim writer, flag set or not), if the body ends normally,
+    the body with the hyphen dropped and the text right-stripped
+    (`bytes.TrimRightFunc(text, unicode.IsSpace)`) ends normally too, has written the same bytes and
+    leaves the same state. Side condition `TrimComm u`: stripping `u` on the two sides commutes —
+    true of valid UTF-8 (`trimComm_of_valid`), decidable, and needed only because a pending `-}}`
+    strips the text on the left first.
+
+    Not claimed when the body does not end normally (error, `break`, `continue`): with the hyphen
+    the stripped text has been written, without it it is still pending (same bytes in the end when
+    the render goes on: `hyphen_faces_text_left`; a different partial output when the render fails:
+    `hyphen_left_partial_output_differs`). -/
+theorem hyphen_faces_text_left_block (c : RCtx) (hc : IncQuiet c) (pre post : List Node) (l : Nat) (u : Bytes)
+    (hu : TrimComm u) (s s' : RS) (out : Bytes)
+    (h : (renderBlockBody c (pre ++ .text l u :: .trim true :: post) s).runPure = (out, .ok (.done, s'))) :
+    (renderBlockBody c (pre ++ .text l (trimRightSpace u) :: post) s).runPure = (out, .ok (.done, s')) :=
+  faceRel_block c (gpair_list_append_left faceRel_ok (fun op => faceRel_refl [op]) c hc pre
+    (gpair_face_fuse c l u hu (refl_list faceRel_ok (fun op => faceRel_refl [op]) c hc post))) s s' out h
+
+/-- **hyphen_faces_text_left, whole template, every depth.** `faceL` right-strips every text that is
+    directly followed at its level by `{{-`/`{%-` and drops that hyphen, at every depth (capture
+    bodies included: the captured text is the same). The two templates end the same way (normally,
+    or with the same error), and after a normal end with the same output. -/
+theorem hyphen_faces_text_left (c : RCtx) (hc : IncQuiet c) (nodes : List Node)
+    (hcomm : ∀ u ∈ litChunks nodes, TrimComm u) (env : Env) :
+    (renderRoot c nodes env).runPure.2 = (renderRoot c (faceL nodes) env).runPure.2 ∧
+    ∀ out, (renderRoot c nodes env).runPure = (out, .ok .done) → (renderRoot c (faceL nodes) env).runPure = (out, .ok .done) :=
+  faceRel_root c (face_list c hc nodes hcomm).1 env
+
+/-- **hyphen_faces_text.** `faceText` applies both rules at every depth. When every hyphen of the
+    template faces a literal text, `faceText nodes` is hyphen-free (`hasTrim (faceText nodes) =
+    false`, decidable): it is the template with the hyphens dropped and the adjacent whitespace of
+    the adjacent texts deleted, which loses nothing (`hyphen_free_identity`) — and it renders the
+    same output. In general the hyphens that do not face text remain in `faceText nodes`. -/
+theorem hyphen_faces_text (c : RCtx) (hc : IncQuiet c) (nodes : List Node)
+    (hcomm : ∀ u ∈ litChunks nodes, TrimComm u) (env : Env) :
+    (renderRoot c nodes env).runPure.2 = (renderRoot c (faceText nodes) env).runPure.2 ∧
+    ∀ out, (renderRoot c nodes env).runPure = (out, .ok .done) →
+      (renderRoot c (faceText nodes) env).runPure = (out, .ok .done) := by
+  unfold faceText
+  rw [(hyphen_faces_text_right_everywhere c (faceL nodes)).2 env]
+  exact hyphen_faces_text_left c hc nodes hcomm env
+
+/-- literal text that is valid UTF-8 satisfies the side condition -/
+theorem trimComm_of_valid_lits (nodes : List Node) (h : ∀ u ∈ litChunks nodes, ValidUtf8 u) :
+    ∀ u ∈ litChunks nodes, TrimComm u := fun u hu => trimComm_of_valid u (h u hu)
+
+/-! ### Examples for (4) -/
+
+set_option linter.unusedSimpArgs false in
+/-- evaluate a render with loops and cycles in `hyCtx` -/
+local macro "hy_eval_loop" "[" ts:Lean.Parser.Tactic.simpLemma,* "]" : tactic => `(tactic|
+  simp [$ts,*, renderRoot, renderList, renderNode, renderBranches,
+    renderBlockBody, evalCond, wrapFailAt, wrapAt, M.mapFail, M.bind, M.pure, M.fail, writeM, trimLeftM, trimRightM, flushM, captureM,
+    Prog.bind, Prog.mapFail, Prog.runPure, Prog.calls, bind, pure, hyCtx, hyPrims, M.setVar, M.getEnv, M.getVar, M.ofRes, evaluate,
+    eval, Env.set, Env.get, GoVal.toLiquid, GoVal.unwrap, GoVal.isNil, GoVal.test, hyOut, writeAllM, Status.wrap,
+    loopRun, loopDispatch, loopIterate, iterateM, tablerowCols, intModifier, loopItems, selectItems, restoreLoopVars, cyclesOf,
+    forloopRec])
+
+/-- `a␠{{- v -}}␠b␠{%- if true -%}␠c␠{% endif %}`: every hyphen faces a literal text -/
+def hyFaceTpl : List Node :=
+  [.text 1 [97, 32], .trim true, .obj 1 (.var [118]), .trim false, .text 1 [32, 98, 32], .trim true,
+   .ifB 2 [(.always, [.trim false, .text 2 [32, 99, 32]])]]
+
+/-- what `faceText` makes of it: `a{{ v }}b{% if true %}c␠{% endif %}` -/
+theorem hyFace_faceText :
+    faceText hyFaceTpl = [.text 1 [97], .obj 1 (.var [118]), .text 1 [98], .ifB 2 [(.always, [.text 2 [99, 32]])]] := by
+  have h1 : trimRightSpace [97, 32] = [97] := by decide
+  have h2 : trimLeftSpace [32, 98, 32] = [98, 32] := by decide
+  have h3 : trimRightSpace [32, 98, 32] = [32, 98] := by decide
+  have h4 : trimLeftSpace [32, 98] = [98] := by decide
+  have h5 : trimLeftSpace [32, 99, 32] = [99, 32] := by decide
+  simp [faceText, hyFaceTpl, faceL, faceLNode, faceLBranches, faceR, faceRNode, faceRBranches, h1, h2, h3, h4, h5]
+
+theorem hyFace_out : (renderRoot hyCtx hyFaceTpl hyDemoEnv).runPure = ([97, 120, 98, 99, 32], .ok .done) := by
+  have h1 : trimRightSpace [97, 32] = [97] := by decide
+  have h2 : trimLeftSpace [32, 98, 32] = [98, 32] := by decide
+  have h3 : trimRightSpace [98, 32] = [98] := by decide
+  have h5 : trimLeftSpace [32, 99, 32] = [99, 32] := by decide
+  have h6 : trimRightSpace [120] = [120] := by decide
+  hy_eval [hyFaceTpl, hyDemoEnv, h1, h2, h3, h5, h6]
+
+/-- Non-vacuity of `hyphen_faces_text` (and of the left and right rules it is made of): every hyphen
+    of `hyFaceTpl` faces text, the hyphen-free `faceText hyFaceTpl` renders the same `axbc␠` -/
+example : hasTrim (faceText hyFaceTpl) = false ∧
+    (renderRoot hyCtx (faceText hyFaceTpl) hyDemoEnv).runPure = ([97, 120, 98, 99, 32], .ok .done) :=
+  ⟨by rw [hyFace_faceText]; rfl,
+   (hyphen_faces_text hyCtx hyCtx_quiet hyFaceTpl (fun u hu => by
+      simp only [hyFaceTpl, litChunks, litNode, litBranches, List.append_nil, List.nil_append, List.cons_append,
+        List.mem_cons, List.not_mem_nil, or_false] at hu
+      rcases hu with rfl | rfl | rfl <;> decide) hyDemoEnv).2 _ hyFace_out⟩
+
+/-- Non-vacuity of `hyphen_faces_text_right`: `x -}}␠b` inside a sequence, state arbitrary -/
+example (s : RS) :
+    renderList hyCtx ([.obj 1 (.var [118])] ++ .trim false :: .text 1 [32, 98] :: [.text 1 [99]]) s =
+      renderList hyCtx ([.obj 1 (.var [118])] ++ .text 1 (trimLeftSpace [32, 98]) :: [.text 1 [99]]) s := by
+  rw [hyphen_faces_text_right]
+
+/-- Non-vacuity of `hyphen_faces_text_left_block`: body `a␠{{- v }}` from a state with pending text
+    `x␠` and the flag set: `x␠` and `a` are written, `x` (the value of `v`) is pending -/
+example :
+    (renderBlockBody hyCtx ([] ++ .text 1 [32, 97, 32] :: .trim true :: [.obj 1 (.var [118])])
+      ⟨hyDemoEnv, { buf := [120, 32], trim := true }⟩).runPure =
+      ([120, 32, 97, 120], .ok (.done, ⟨hyDemoEnv, { buf := [], trim := false }⟩)) ∧
+    TrimComm [32, 97, 32] ∧
+    (renderBlockBody hyCtx ([] ++ .text 1 (trimRightSpace [32, 97, 32]) :: [.obj 1 (.var [118])])
+      ⟨hyDemoEnv, { buf := [120, 32], trim := true }⟩).runPure =
+      ([120, 32, 97, 120], .ok (.done, ⟨hyDemoEnv, { buf := [], trim := false }⟩)) := by
+  have h1 : trimLeftSpace [32, 97, 32] = [97, 32] := by decide
+  have h2 : trimRightSpace [97, 32] = [97] := by decide
+  have h : (renderBlockBody hyCtx ([] ++ .text 1 [32, 97, 32] :: .trim true :: [.obj 1 (.var [118])])
+      ⟨hyDemoEnv, { buf := [120, 32], trim := true }⟩).runPure =
+      ([120, 32, 97, 120], .ok (.done, ⟨hyDemoEnv, { buf := [], trim := false }⟩)) := by
+    hy_eval [hyDemoEnv, h1, h2]
+  exact ⟨h, by decide, hyphen_faces_text_left_block hyCtx hyCtx_quiet [] _ 1 _ (by decide) _ _ _ h⟩
+
+/-! ### Where a hyphen does NOT face text: what the trim writer does there
+
+These are facts about the model (which the `hyphens` stream compares with the real engine on
+every run), recorded because they delimit the rules above. A `{{-` reaches only the text that is
+still pending: the last write, provided no flush came after it; the flush at the end of a block
+body or of a loop iteration puts the text out of reach. A `-}}` stays armed until the next write:
+across tags that write nothing, across block ends and from one loop iteration to the next. -/
+
+/-- `{% if true %}a␠{% endif %}{{- … }}b`: the hyphen faces the `endif` tag; the text `a␠` was
+    flushed when its block ended and is NOT stripped -/
+theorem hyphen_left_after_block_end :
+    (renderRoot hyCtx [.ifB 1 [(.always, [.text 1 [97, 32]])], .trim true, .text 2 [98]] []).runPure =
+      ([97, 32, 98], .ok .done) := by
+  have h0 : trimRightSpace [] = [] := by decide
+  hy_eval [h0]
+
+/-- `a␠{% if true %}{{- … }}b{% endif %}`: the hyphen faces the `if` tag, but the text before the
+    block is still pending when the block starts and IS stripped -/
+theorem hyphen_left_reaches_before_block :
+    (renderRoot hyCtx [.text 1 [97, 32], .ifB 1 [(.always, [.trim true, .text 2 [98]])]] []).runPure =
+      ([97, 98], .ok .done) := by
+  have h0 : trimRightSpace [97, 32] = [97] := by decide
+  hy_eval [h0]
+
+/-- the items of the demo loops: two nils -/
+def hyTwo : Expr := .lit (.slice .any [.nil, .nil])
+
+/-- `{% for i in two %}{{- … }}a␠{% endfor %}`: at the start of the second iteration the hyphen does
+    not reach the `a␠` of the first one (flushed at the end of the iteration): `a␠a␠` -/
+theorem hyphen_left_at_iteration_start :
+    (renderRoot hyCtx [.loop 1 false [105] hyTwo {} [.trim true, .text 1 [97, 32]] []] []).runPure =
+      ([97, 32, 97, 32], .ok .done) := by
+  have h0 : trimRightSpace [] = [] := by decide
+  hy_eval_loop [hyTwo, h0]
+
+/-- `{% for i in two %}␠a{{ … -}}{% endfor %}␠b`: the `-}}` at the end of the body faces the
+    `endfor` tag; it stays armed, strips the `␠a` of the NEXT iteration and, after the loop, the
+    text `␠b`: `␠aab` (the texts it strips are not adjacent to it) -/
+theorem hyphen_right_persists_over_iterations :
+    (renderRoot hyCtx [.loop 1 false [105] hyTwo {} [.text 1 [32, 97], .trim false] [], .text 2 [32, 98]] []).runPure =
+      ([32, 97, 97, 98], .ok .done) := by
+  have h1 : trimLeftSpace [32, 97] = [97] := by decide
+  have h2 : trimLeftSpace [32, 98] = [98] := by decide
+  hy_eval_loop [hyTwo, h1, h2]
+
+/-- `{{ … -}}{% assign x = 1 %}␠b`: a tag that writes nothing does not use the flag up; the text
+    after it is stripped although the hyphen faces the tag -/
+theorem hyphen_right_persists_over_silent_tag :
+    (renderRoot hyCtx [.text 1 [97], .trim false, .assign 1 [120] (.lit (.int .int 1)), .text 1 [32, 98]] []).runPure =
+      ([97, 98], .ok .done) := by
+  have h2 : trimLeftSpace [32, 98] = [98] := by decide
+  hy_eval [h2]
+
+/-- **Why the left rule asks for a normal end.** `a␠{{- … }}{% cycle "b" %}` outside a loop fails
+    at the cycle tag. With the hyphen `a` has been written before the failure; in the template
+    with the text stripped and the hyphen dropped, `a` is still pending and is lost. Same error,
+    different partial output. -/
+theorem hyphen_left_partial_output_differs :
+    (renderRoot hyCtx [.text 1 [97, 32], .trim true, .cycle 2 [] [98] []] []).runPure.1 = [97] ∧
+    (renderRoot hyCtx [.text 1 (trimRightSpace [97, 32]), .cycle 2 [] [98] []] []).runPure.1 = [] ∧
+    (renderRoot hyCtx [.text 1 [97, 32], .trim true, .cycle 2 [] [98] []] []).runPure.2 =
+      (renderRoot hyCtx [.text 1 (trimRightSpace [97, 32]), .cycle 2 [] [98] []] []).runPure.2 := by
+  have h0 : trimRightSpace [97, 32] = [97] := by decide
+  refine ⟨?_, ?_, ?_⟩ <;> hy_eval_loop [h0]
